@@ -7,8 +7,13 @@ use discret::{Configuration, Parameters};
 use serde_json::{json, Map, Value};
 use std::collections::HashMap;
 
-pub const MODEL: &str = "q { A { u: Integer, s: String nullable, i: Integer nullable, d: Integer default 2, f: Float nullable, b: Boolean nullable, \
+/// the first version of the model: the fields with a default value are added by the second one, so that the rows
+/// written before the update do not hold them
+pub const MODEL0: &str = "q { A { u: Integer, s: String nullable, i: Integer nullable, f: Float nullable, b: Boolean nullable, \
     one: q.B nullable, many: [q.B] nullable, self: q.A nullable, req: q.B } \
+    B { u: Integer, t: String nullable } }";
+pub const MODEL: &str = "q { A { u: Integer, s: String nullable, i: Integer nullable, f: Float nullable, b: Boolean nullable, \
+    one: q.B nullable, many: [q.B] nullable, self: q.A nullable, req: q.B, d: Integer default 2 } \
     B { u: Integer, t: String nullable, n: Integer default 2 } }";
 
 fn short(e: String) -> String {
@@ -47,6 +52,9 @@ fn code(tables: &Value, f: &str, v: &Value) -> i64 {
 /// a result row with codes; `ast` tells which keys are sub-queries
 fn decode_rows(tables: &Value, ast: &Value, rows: &Value) -> Value {
     let subs: HashMap<String, Value> = arr(ast, "subs").iter().map(|x| (x[0].as_str().unwrap().to_string(), x[1].clone())).collect();
+    // alias -> (function, field)
+    let aggs: HashMap<String, (String, String)> = ast["aggs"].as_array().map(|a| a.iter().map(|x| (x[0].as_str().unwrap().to_string(),
+        (x[1].as_str().unwrap().to_string(), x[2].as_str().unwrap_or("").to_string()))).collect()).unwrap_or_default();
     let list: Vec<Value> = match rows {
         Value::Array(a) => a.clone(),
         Value::Null => vec![],
@@ -62,9 +70,23 @@ fn decode_rows(tables: &Value, ast: &Value, rows: &Value) -> Value {
                             Some(sq) => {
                                 m.insert(k.clone(), decode_rows(tables, sq, v));
                             }
-                            None => {
-                                m.insert(k.clone(), json!(code(tables, k, v)));
-                            }
+                            None => match aggs.get(k) {
+                                Some((func, field)) => {
+                                    let c = if v.is_null() {
+                                        -1
+                                    } else if func == "avg" {
+                                        v.as_f64().map(|x| (x * 60.0).round() as i64).unwrap_or(99)
+                                    } else if func == "count" || func == "sum" {
+                                        v.as_f64().filter(|x| x.fract() == 0.0).map(|x| x as i64).unwrap_or(99)
+                                    } else {
+                                        code(tables, field, v)
+                                    };
+                                    m.insert(k.clone(), json!(c));
+                                }
+                                None => {
+                                    m.insert(k.clone(), json!(code(tables, k, v)));
+                                }
+                            },
                         }
                     }
                 }
@@ -77,6 +99,9 @@ fn decode_rows(tables: &Value, ast: &Value, rows: &Value) -> Value {
 async fn run_query(peer: &Peer, text: &str, params: &Value, root: &str) -> Result<Value, String> {
     let p = pjson(params)?;
     let r = peer.db.query(text, p).await.map_err(|e| e.to_string())?;
+    if std::env::var("DV_RAW").is_ok() {
+        eprintln!("RAW {text} => {r}");
+    }
     let v: Value = serde_json::from_str(&r).map_err(|e| e.to_string())?;
     Ok(v[root].clone())
 }
@@ -97,51 +122,63 @@ pub fn main(args: &[String]) -> i32 {
             set_clock(0, 10);
             let mut folder = run_dir();
             folder.push(format!("q{n}"));
-            let peer = Peer::start_in("q", "u1", MODEL, &config, folder).await.expect("instance");
+            let peer = Peer::start_in("q", "u1", MODEL0, &config, folder).await.expect("instance");
             let room = create_open_room(&peer, &[peer.vkey.clone()]).await.expect("room");
             let rid = discret::verif_hooks::security::uid_encode(&room);
             let tables = &sc["tables"];
-            // the data set, through mutate()
+            // the data set, through mutate(): the rows flagged old before the model update, the others after it
             let mut ids: HashMap<i64, String> = HashMap::new();
             let mut setup = "ok".to_string();
-            for b in arr(&sc["data"], "B") {
-                let p = json!({"room": rid, "u": b["u"], "t": b["t"], "n": b["n"]});
-                let text = if b["n"].is_null() { "mutate { q.B { room_id:$room u:$u t:$t } }" } else { "mutate { q.B { room_id:$room u:$u t:$t n:$n } }" };
-                let mut p = p;
-                if b["n"].is_null() {
-                    p.as_object_mut().unwrap().remove("n");
-                }
-                match peer.db.mutate(text, pjson(&p).unwrap()).await {
-                    Ok(r) => {
-                        let v: Value = serde_json::from_str(&r).unwrap_or(Value::Null);
-                        ids.insert(i(b, "id"), v["q.B"]["id"].as_str().unwrap_or("").to_string());
+            for phase in [true, false] {
+                if !phase {
+                    if let Err(e) = peer.db.update_data_model(MODEL).await {
+                        setup = format!("err:model update:{}", short(e.to_string()));
                     }
-                    Err(e) => setup = format!("err:{}", short(e.to_string())),
                 }
-            }
-            for a in arr(&sc["data"], "A") {
-                let mut fields = String::from("room_id:$room u:$u s:$s i:$i f:$f b:$b ");
-                let mut p = json!({"room": rid, "u": a["u"], "s": a["s"], "i": a["i"], "f": a["f"], "b": a["b"]});
-                if !a["d"].is_null() {
-                    fields.push_str("d:$d ");
-                    p["d"] = a["d"].clone();
-                }
-                let refs = |k: &str| -> Vec<String> { arr(a, k).iter().map(|x| ids[&x.as_i64().unwrap()].clone()).collect() };
-                let req = refs("req");
-                fields.push_str(&format!("req: {{ id:\"{}\" }} ", req[0]));
-                if let Some(o) = refs("one").first() {
-                    fields.push_str(&format!("one: {{ id:\"{}\" }} ", o));
-                }
-                let many = refs("many");
-                if !many.is_empty() {
-                    fields.push_str(&format!("many: [ {} ] ", many.iter().map(|m| format!("{{ id:\"{}\" }}", m)).collect::<Vec<_>>().join(", ")));
-                }
-                match peer.db.mutate(&format!("mutate {{ q.A {{ {fields} }} }}"), pjson(&p).unwrap()).await {
-                    Ok(r) => {
-                        let v: Value = serde_json::from_str(&r).unwrap_or(Value::Null);
-                        ids.insert(i(a, "id"), v["q.A"]["id"].as_str().unwrap_or("").to_string());
+                for b in arr(&sc["data"], "B") {
+                    if b["old"].as_bool().unwrap_or(false) != phase {
+                        continue;
                     }
-                    Err(e) => setup = format!("err:{}", short(e.to_string())),
+                    let mut p = json!({"room": rid, "u": b["u"], "t": b["t"]});
+                    let text = if phase || b["n"].is_null() { "mutate { q.B { room_id:$room u:$u t:$t } }" } else { "mutate { q.B { room_id:$room u:$u t:$t n:$n } }" };
+                    if !(phase || b["n"].is_null()) {
+                        p["n"] = b["n"].clone();
+                    }
+                    match peer.db.mutate(text, pjson(&p).unwrap()).await {
+                        Ok(r) => {
+                            let v: Value = serde_json::from_str(&r).unwrap_or(Value::Null);
+                            ids.insert(i(b, "id"), v["q.B"]["id"].as_str().unwrap_or("").to_string());
+                        }
+                        Err(e) => setup = format!("err:{}", short(e.to_string())),
+                    }
+                }
+                for a in arr(&sc["data"], "A") {
+                    if a["old"].as_bool().unwrap_or(false) != phase {
+                        continue;
+                    }
+                    let mut fields = String::from("room_id:$room u:$u s:$s i:$i f:$f b:$b ");
+                    let mut p = json!({"room": rid, "u": a["u"], "s": a["s"], "i": a["i"], "f": a["f"], "b": a["b"]});
+                    if !phase && !a["d"].is_null() {
+                        fields.push_str("d:$d ");
+                        p["d"] = a["d"].clone();
+                    }
+                    let refs = |k: &str| -> Vec<String> { arr(a, k).iter().map(|x| ids[&x.as_i64().unwrap()].clone()).collect() };
+                    let req = refs("req");
+                    fields.push_str(&format!("req: {{ id:\"{}\" }} ", req[0]));
+                    if let Some(o) = refs("one").first() {
+                        fields.push_str(&format!("one: {{ id:\"{}\" }} ", o));
+                    }
+                    let many = refs("many");
+                    if !many.is_empty() {
+                        fields.push_str(&format!("many: [ {} ] ", many.iter().map(|m| format!("{{ id:\"{}\" }}", m)).collect::<Vec<_>>().join(", ")));
+                    }
+                    match peer.db.mutate(&format!("mutate {{ q.A {{ {fields} }} }}"), pjson(&p).unwrap()).await {
+                        Ok(r) => {
+                            let v: Value = serde_json::from_str(&r).unwrap_or(Value::Null);
+                            ids.insert(i(a, "id"), v["q.A"]["id"].as_str().unwrap_or("").to_string());
+                        }
+                        Err(e) => setup = format!("err:{}", short(e.to_string())),
+                    }
                 }
             }
             for a in arr(&sc["data"], "A") {
